@@ -182,6 +182,7 @@ class Items(set):
         self.exact = {}
         self.cur = None
         self.cur_extra = frozenset()
+        self.cases = {}     # (kind, target) -> [(canonical value without joins, exact DNF)] for writes whose value is a join / if-then-else
 
     def add(self, it):
         super().add(it)
@@ -438,6 +439,102 @@ def summarise(ctx, b, flavour):
         dmemo[bb] = out if len(out) <= 48 else None
         return dmemo[bb]
 
+    fmemo = {}
+
+    def block_dnf_forced(bb, forced):
+        """block_dnf restricted to the paths that enter each join block j of `forced` through the edge forced[j] -> j"""
+        key = (bb, forced)
+        if key in fmemo:
+            return fmemo[key]
+        fmemo[key] = None
+        if bb == 0:
+            fmemo[key] = [frozenset()]
+            return fmemo[key]
+        fd = dict(forced)
+        preds = [p for p in b.pred[bb] if (p, bb) not in back and p in b.reachable and not b.blocks[p]["cleanup"]]
+        if bb in fd:
+            preds = [p for p in preds if p == fd[bb]]
+        out = []
+        for p in preds:
+            pd = block_dnf_forced(p, forced)
+            if pd is None:
+                return None
+            gp = ev.guards(res, p)
+            edge = [g for g in ev.guards_edge(res, p, bb) if g not in gp]
+            el, einf = project_lits(implied_facts(edge))
+            if einf:
+                continue
+            out.extend(c | frozenset(el) for c in pd)
+        out = dnf_simplify(out)
+        fmemo[key] = out if len(out) <= 48 else None
+        return fmemo[key]
+
+    own = "%s@" % b.name
+
+    def own_phi(x):
+        return tag(x) == "phi" and len(x) > 4 and x[4] and all(o is not None for o in x[4]) and len(x[1]) == 1 and str(x[1][0]).startswith(own)
+
+    def find_first(t, pred):
+        hit = []
+
+        def grab(x):
+            if not hit and pred(x):
+                hit.append(x)
+            return None
+        term_map(t, grab)
+        return hit[0] if hit else None
+
+    def value_cases(raw, bb, forced=(), lits=frozenset(), depth=0):
+        """[(value without own-frame joins / ite, exact DNF)] or None"""
+        if depth > 8:
+            return None
+        ph = find_first(raw, own_phi)
+        if ph is not None:
+            try:
+                jb = int(str(ph[1][-1]).split("@")[-1])
+            except ValueError:
+                return None
+            if jb in dict(forced):
+                return None
+            out = []
+            for alt, origin in zip(ph[3], ph[4]):
+                v2 = term_map(raw, lambda x, ph=ph, alt=alt: alt if x == ph else None)
+                sub_ = value_cases(v2, bb, tuple(sorted(forced + ((jb, origin),))), lits, depth + 1)
+                if sub_ is None:
+                    return None
+                out.extend(sub_)
+            return out
+        it = find_first(raw, lambda x: tag(x) == "ite")
+        if it is not None:
+            out = []
+            c = as_lin(it[1])
+            for val, fact in ((it[2], ("cmp", "Ge", c, const(0))), (it[3], ("cmp", "Lt", c, const(0)))):
+                v2 = term_map(raw, lambda x, it=it, val=val: val if x == it else None)
+                fl, finf = project_lits([fact])
+                if finf:
+                    continue
+                sub_ = value_cases(v2, bb, forced, lits | frozenset(fl), depth + 1)
+                if sub_ is None:
+                    return None
+                out.extend(sub_)
+            return out
+        d = block_dnf_forced(bb, forced)
+        if d is None:
+            return None
+        return [(repr(k.t(raw)), [c | lits for c in d])]
+
+    def note_cases(kind_, tgt, raw, e):
+        if e["chain"] or raw is None:
+            return
+        if find_first(raw, own_phi) is None and find_first(raw, lambda x: tag(x) == "ite") is None:
+            return
+        cs = value_cases(raw, e["bb"])
+        key = (kind_, repr(tgt))
+        if cs is None:
+            items.cases[key] = None
+        elif items.cases.get(key, []) is not None:
+            items.cases.setdefault(key, []).extend(cs)
+
     for e in res.log:
         if e["chain"] and e["kind"] not in ("store",) and not (e["kind"] == "call" and (e.get("atomic") or e.get("effect"))):
             continue
@@ -470,6 +567,7 @@ def summarise(ctx, b, flavour):
                 items.add(("ret", repr(k.t(v)), guards))
         elif kind == "call" and e.get("atomic") in ("store",):
             emit_write(items, k.place(e["target"]), k.t(e["new"]), guards)
+            note_cases("write", k.place(e["target"]), e["new"], e)
         elif kind == "call" and e.get("atomic") in ("compare_exchange", "compare_exchange_weak"):
             nv = e["new"]
             if tag(nv) == "pack" and tag(nv[1]) == "named" and nv[1][1] == "REMOVED_SEGMENT_NODE":
@@ -492,6 +590,7 @@ def summarise(ctx, b, flavour):
             v = e["value"]
             # x.field += n  ->  add
             emit_write(items, tgt, k.t(v), guards)
+            note_cases("write", tgt, v, e)
         elif kind == "call" and e.get("effect") in WRITE_EFFECTS:
             items.add(("raw", e["effect"], repr(k.t(e.get("dst"))), repr(k.t(e.get("count") if e.get("count") is not None else e.get("value"))), guards))
         elif kind == "call" and not e["chain"] and not e.get("inlined") and not e.get("atomic"):
@@ -534,6 +633,32 @@ def sib(ctx):
             # conditions of every differing effect as formulas - each disjunct of one side must imply the disjunction of the other side
             sigs = set(it[:-1] for it in only_s) | set(it[:-1] for it in only_u)
             sem = True
+            # a write whose value is a join (`let x = match .. { .. }; store(x)`) or an if-then-else term (`map_or`) is one write per case: compare, per
+            # resulting value, the exact conditions under which that value is written
+            done = set()
+            for sig in sorted(sigs, key=repr):
+                if sig[0] != "write":
+                    continue
+                key = ("write", sig[1])
+                if key in done:
+                    continue
+                ca, cb = ss.cases.get(key), su.cases.get(key)
+                if ca is None and cb is None:
+                    continue
+                def table(cs, side, key=key):
+                    # the side without joins: its plain items for this target
+                    if cs is None:
+                        cs = [(it[2], side.exact.get(it[:-1]) or []) for it in side if it[0] == "write" and it[1] == key[1]]
+                    t_ = {}
+                    for v, d in cs:
+                        t_.setdefault(v, []).extend(d)
+                    return {v: dnf_simplify(d) for v, d in t_.items()}
+                ta, tb = table(ca, ss), table(cb, su)
+                ta = {v: d for v, d in ta.items() if d}
+                tb = {v: d for v, d in tb.items() if d}
+                if set(ta) == set(tb) and all(dnf_implies(ta[v], tb[v]) and dnf_implies(tb[v], ta[v]) for v in ta):
+                    done.add(key)
+            sigs = set(sg for sg in sigs if not (sg[0] == "write" and ("write", sg[1]) in done))
             for sig in sigs:
                 A, B = ss.exact.get(sig), su.exact.get(sig)
                 if not A or not B:
